@@ -97,15 +97,30 @@ impl Stats {
         for (k, v) in o.viol_by_sig {
             *self.viol_by_sig.entry(k).or_default() += v;
         }
+        // Deterministic choice of examples whatever the order in which units finish: per signature keep
+        // the two smallest case keys (shortest first), and keep the list sorted by (signature, key).
+        fn ord(v: &Viol) -> (usize, &str) {
+            (v.key.len(), v.key.as_str())
+        }
         for v in o.viol_examples {
-            let same = self.viol_examples.iter().filter(|x| x.sig == v.sig).count();
-            if same < 2 && self.viol_examples.len() < 40 {
-                self.viol_examples.push(v);
+            let same: Vec<usize> =
+                self.viol_examples.iter().enumerate().filter(|(_, x)| x.sig == v.sig).map(|(i, _)| i).collect();
+            if same.len() < 2 {
+                if self.viol_examples.len() < 40 {
+                    self.viol_examples.push(v);
+                }
+            } else {
+                let worst = *same.iter().max_by(|a, b| ord(&self.viol_examples[**a]).cmp(&ord(&self.viol_examples[**b]))).unwrap();
+                if ord(&v) < ord(&self.viol_examples[worst]) {
+                    self.viol_examples[worst] = v;
+                }
             }
         }
+        self.viol_examples.sort_by(|a, b| (a.sig.as_str(), ord(a)).cmp(&(b.sig.as_str(), ord(b))));
         for (k, v) in o.known {
             let e = self.known.entry(k).or_default();
-            if e.count == 0 {
+            // deterministic example: the smallest case key (shortest first), whatever the arrival order
+            if e.count == 0 || (v.first_key.len(), v.first_key.as_str()) < (e.first_key.len(), e.first_key.as_str()) {
                 e.first_key = v.first_key;
                 e.first_what = v.first_what;
             }
